@@ -303,7 +303,7 @@ Definition spec_Sensor : sformat := mkfmt "Sensor" "src/avtp/acf/Sensor.c" "Avtp
   "Avtp_Sensor_Init" [("AVTP_SENSOR_FIELD_ACF_MSG_TYPE", 8)].
 
 Definition spec_SensorBrief : sformat := mkfmt "SensorBrief" "src/avtp/acf/SensorBrief.c" "Avtp_SensorBrief_t" 4
-  "Avtp_SensorBrief_GetField" "Avtp_SensorBrief_SetField" "AVTP_SENSOR_FIELD_MAX"
+  "Avtp_SensorBrief_GetField" "Avtp_SensorBrief_SetField" "AVTP_SENSOR_BRIEF_FIELD_MAX"
   [
     F "AVTP_SENSOR_BRIEF_FIELD_ACF_MSG_TYPE"           0  7 "Avtp_SensorBrief_GetAcfMsgType" "Avtp_SensorBrief_SetAcfMsgType";
     F "AVTP_SENSOR_BRIEF_FIELD_ACF_MSG_LENGTH"         7  9 "Avtp_SensorBrief_GetAcfMsgLength" "Avtp_SensorBrief_SetAcfMsgLength";
@@ -311,7 +311,7 @@ Definition spec_SensorBrief : sformat := mkfmt "SensorBrief" "src/avtp/acf/Senso
     F "AVTP_SENSOR_BRIEF_FIELD_NUM_SENSOR"            17  7 "Avtp_SensorBrief_GetNumSensor" "Avtp_SensorBrief_SetNumSensor";
     F "AVTP_SENSOR_BRIEF_FIELD_SZ"                    24  2 "Avtp_SensorBrief_GetSz" "Avtp_SensorBrief_SetSz";
     F "AVTP_SENSOR_BRIEF_FIELD_SENSOR_GROUP"          26  6 "Avtp_SensorBrief_GetSensorGroup" "Avtp_SensorBrief_SetSensorGroup" ]
-  "Avtp_SensorBrief_Init" [("AVTP_SENSOR_FIELD_ACF_MSG_TYPE", 9)].
+  "Avtp_SensorBrief_Init" [("AVTP_SENSOR_BRIEF_FIELD_ACF_MSG_TYPE", 9)].
 
 Definition spec_Tscf : sformat := mkfmt "Tscf" "src/avtp/acf/Tscf.c" "Avtp_Tscf_t" 24
   "Avtp_Tscf_GetField" "Avtp_Tscf_SetField" "AVTP_TSCF_FIELD_MAX"
